@@ -49,6 +49,7 @@ type TierCfg struct {
 	Validate int            `json:"validate"` // number of explored paths replayed natively for the differential check
 	Workers  int            `json:"workers"`
 	Cross    bool           `json:"cross"` // re-run assertion queries on the other solvers
+	MaxSteps int            `json:"max_steps"`
 }
 
 type Unit struct {
